@@ -37,7 +37,9 @@ type histProfile struct {
 	maxDevs, minEv, maxEv                      int
 	shareAddr                                  int // 1 in n histories has devices sharing an address
 	confirmedOnly                              bool
-	nonceOff                                   int // 1 in n histories disables the nonce check
+	nonceOff                                   int  // 1 in n histories disables the nonce check
+	badDatr                                    bool // gateways sometimes report an unknown data-rate string
+	maxSubmit                                  int  // largest queued payload (0: up to 230, beyond some data rates' limit)
 }
 
 var datrs = []string{"SF12BW125", "SF11BW125", "SF10BW125", "SF9BW125", "SF8BW125", "SF7BW125", "SF7BW250", "FSKBW500"}
@@ -65,6 +67,7 @@ type histRunner struct {
 	ts        int64
 	gws       []uint64
 	tags      map[string]int
+	badDatr   bool
 	lastValid map[int][]byte
 }
 
@@ -89,7 +92,7 @@ func (h *histRunner) rx(raw []byte, tag string) {
 	h.ts += 1000
 	gw := h.gws[h.rng.Intn(len(h.gws))]
 	datr := datrs[h.rng.Intn(len(datrs))]
-	if h.rng.Intn(25) == 0 {
+	if h.badDatr && h.rng.Intn(25) == 0 {
 		datr = "SF6BW999"
 	}
 	rssi := int32(-h.rng.Intn(130))
@@ -199,7 +202,7 @@ func runHistory(rng *rand.Rand, prof histProfile, w *Writer, suite string) {
 	}
 	world := newWorld(opts)
 	defer world.close()
-	h := &histRunner{w: world, rng: rng, tags: w.Stats, lastValid: map[int][]byte{}}
+	h := &histRunner{w: world, rng: rng, tags: w.Stats, lastValid: map[int][]byte{}, badDatr: prof.badDatr}
 	h.gws = []uint64{genEUI(rng), genEUI(rng)}
 	napps := 1 + rng.Intn(2)
 	for i := 0; i < napps; i++ {
@@ -395,6 +398,9 @@ func runHistory(rng *rand.Rand, prof histProfile, w *Writer, suite string) {
 			if rng.Intn(8) == 0 {
 				n = []int{51, 52, 59, 60, 115, 123, 222, 230}[rng.Intn(8)]
 			}
+			if prof.maxSubmit > 0 && n > prof.maxSubmit {
+				n = 1 + rng.Intn(prof.maxSubmit)
+			}
 			h.submit(d, port, rng.Intn(2) == 0, randBytes(rng, n))
 		}
 	}
@@ -403,14 +409,14 @@ func runHistory(rng *rand.Rand, prof histProfile, w *Writer, suite string) {
 }
 
 var profiles = map[string]histProfile{
-	"C01": {name: "C01", wUplink: 4, wCorrupt: 8, wJoin: 1, wSubmit: 1, wReplay: 1, maxDevs: 4, minEv: 8, maxEv: 25, shareAddr: 3},
-	"C02": {name: "C02", wUplink: 10, wCorrupt: 0, wJoin: 1, wSubmit: 1, wReplay: 0, maxDevs: 3, minEv: 8, maxEv: 20, shareAddr: 8},
-	"C03": {name: "C03", wUplink: 8, wCorrupt: 1, wJoin: 1, wSubmit: 2, wReplay: 5, maxDevs: 2, minEv: 10, maxEv: 30, shareAddr: 0},
-	"C04": {name: "C04", wUplink: 3, wCorrupt: 0, wJoin: 8, wSubmit: 0, wReplay: 0, maxDevs: 3, minEv: 6, maxEv: 16, shareAddr: 0},
-	"C05": {name: "C05", wUplink: 3, wCorrupt: 0, wJoin: 8, wSubmit: 1, wReplay: 1, maxDevs: 3, minEv: 8, maxEv: 20, shareAddr: 0, nonceOff: 3},
-	"C06": {name: "C06", wUplink: 8, wCorrupt: 2, wJoin: 1, wSubmit: 6, wReplay: 1, maxDevs: 4, minEv: 10, maxEv: 30, shareAddr: 6},
-	"C07": {name: "C07", wUplink: 8, wCorrupt: 1, wJoin: 2, wSubmit: 3, wReplay: 1, maxDevs: 2, minEv: 10, maxEv: 30, confirmedOnly: true},
-	"C08": {name: "C08", wUplink: 9, wCorrupt: 1, wJoin: 0, wSubmit: 5, wReplay: 1, maxDevs: 3, minEv: 12, maxEv: 30},
+	"C01": {badDatr: true, name: "C01", wUplink: 4, wCorrupt: 8, wJoin: 1, wSubmit: 1, wReplay: 1, maxDevs: 4, minEv: 8, maxEv: 25, shareAddr: 3},
+	"C02": {badDatr: true, name: "C02", wUplink: 10, wCorrupt: 0, wJoin: 1, wSubmit: 1, wReplay: 0, maxDevs: 3, minEv: 8, maxEv: 20, shareAddr: 8},
+	"C03": {badDatr: true, name: "C03", wUplink: 8, wCorrupt: 1, wJoin: 1, wSubmit: 2, wReplay: 5, maxDevs: 2, minEv: 10, maxEv: 30, shareAddr: 0},
+	"C04": {badDatr: true, name: "C04", wUplink: 3, wCorrupt: 0, wJoin: 8, wSubmit: 0, wReplay: 0, maxDevs: 3, minEv: 6, maxEv: 16, shareAddr: 0},
+	"C05": {badDatr: true, name: "C05", wUplink: 3, wCorrupt: 0, wJoin: 8, wSubmit: 1, wReplay: 1, maxDevs: 3, minEv: 8, maxEv: 20, shareAddr: 0, nonceOff: 3},
+	"C06": {maxSubmit: 59, name: "C06", wUplink: 8, wCorrupt: 2, wJoin: 1, wSubmit: 6, wReplay: 1, maxDevs: 4, minEv: 10, maxEv: 30, shareAddr: 6},
+	"C07": {badDatr: true, name: "C07", wUplink: 8, wCorrupt: 1, wJoin: 2, wSubmit: 3, wReplay: 1, maxDevs: 2, minEv: 10, maxEv: 30, confirmedOnly: true},
+	"C08": {maxSubmit: 59, name: "C08", wUplink: 9, wCorrupt: 1, wJoin: 0, wSubmit: 5, wReplay: 1, maxDevs: 3, minEv: 12, maxEv: 30},
 	"C09": {name: "C09", wUplink: 8, wCorrupt: 2, wJoin: 1, wSubmit: 3, wReplay: 3, maxDevs: 2, minEv: 10, maxEv: 30},
 }
 
